@@ -54,6 +54,15 @@ func NewDir(name string) *Dir {
 	return &Dir{Name: name, entries: map[string]*DirFile{}, durable: map[string]*DirFile{}}
 }
 
+// Preload places a file in the directory as if it had been there, durably,
+// before the process started (e.g. a temporary file left behind by a crash
+// of an earlier incarnation).
+func (d *Dir) Preload(name string, data []byte) {
+	f := &DirFile{Data: append([]byte{}, data...), Durable: append([]byte{}, data...), Synced: true}
+	d.entries[name] = f
+	d.durable[name] = f
+}
+
 var errDirIO = syscall.EIO
 
 func (d *Dir) enter(what string) error {
